@@ -840,3 +840,119 @@ def st_mod_strip_supply(toks):
     if n is None:
         return None
     return toks[0], " ".join(toks[i + n:])
+
+
+# ---------------------------------------------------------------------------
+# C20: totality and build-profile independence
+
+def op_reasons(op):
+    """known-finding shapes occurring anywhere in an op string (token scan)"""
+    from .fals_models import curve_exact
+    toks = op.split()
+    rs = set()
+    for i, t in enumerate(toks):
+        if t == "cur" and i + 1 < len(toks) and toks[i + 1].isdigit():
+            n = int(toks[i + 1])
+            d = [int(x) for x in toks[i + 2:i + 2 + n]]
+            if d and not curve_exact(d):
+                rs.add("F3")
+        if t in ("pre", "p_abu", "c_pre"):
+            rs.add("K1")
+        if t == "never" or (t in ("agg", "sli") and i + 1 < len(toks) and toks[i + 1] == "0"):
+            rs.add("NEVER")
+    return sorted(rs)
+
+
+def real3(ops):
+    return [common.run_parallel(common.harness_bin(p), ops) for p in ("checked", "release", "relchk")]
+
+
+def wf_system(sd):
+    """well-formed per C20: WCETs >= 1 everywhere"""
+    def costs(r):
+        if r[0] == "rbf":
+            yield r[2]
+        elif r[0] == "rbox":
+            yield from costs(r[1])
+        else:
+            for x in r[1]:
+                yield from costs(x)
+    rbs = [sd["tasks"]] if sd["kind"] == "fifo" else [sd["tua"]] + [o["rb"] for o in sd["others"]]
+    for r in rbs:
+        for c in costs(r):
+            if c[0] == "sc" and c[1] < 1:
+                return False
+            if c[0] != "sc":
+                return False
+    return True
+
+
+def falsify_C20(ctx):
+    rng = random.Random(ctx["seed"] * 7919 + 20)
+    quick = ctx["tier"] == "quick"
+    n = 1500 if quick else 100000
+    cex, samples, nontrivial = [], [], set()
+    dist = {"analyses": 0, "ros": 0, "model_queries": 0}
+    # (1) the nine dedicated-processor analyses on well-formed systems
+    sds = []
+    while len(sds) < n:
+        sd = gen_system(rng, small_limit=False)
+        if wf_system(sd):
+            sds.append(sd)
+    ops = [system_op(sd) for sd in sds]
+    rc, rr, rk = real3(ops)
+    dist["analyses"] = len(ops)
+    for sd, op, a, b, c in zip(sds, ops, rc, rr, rk):
+        if a == b == c and a not in ("panic", "hang"):
+            if a.startswith("ok") and a != "ok 0":
+                nontrivial.add(op)
+            continue
+        tabs = fetch_tables([sd])[0]
+        silent = tabs is not None and all(v == 0 for v in tabs["tua"])
+        cex.append({"kind": "profile_dependent_or_panic", "op": op, "checked": a, "release": b, "release_overflow_checks": c,
+                    "reasons": system_reasons(sd), "tua_never_releases": silent, "analysis": sd["kind"]})
+    if ops:
+        samples.append({"op": ops[0], "checked": rc[0], "release": rr[0], "release_overflow_checks": rk[0]})
+    # (2) ROS 2 analyses on well-formed workloads
+    from . import streams as st_mod
+    m = n // 2
+    rops = []
+    for i in range(m):
+        k = rng.random()
+        if k < 0.4:
+            rops += [o for o in st_mod.stream_ros_e19(rng, 1) if " pre " not in o and "sc 0" not in o]
+        elif k < 0.7:
+            rops += st_mod.stream_ros_rr(rng, 1)
+        else:
+            rops += st_mod.stream_ros_bw(rng, 1)
+    rc, rr, rk = real3(rops)
+    dist["ros"] = len(rops)
+    for op, a, b, c in zip(rops, rc, rr, rk):
+        if a == b == c and a not in ("panic", "hang"):
+            if a.startswith("ok") and a != "ok 0":
+                nontrivial.add(op)
+            continue
+        cex.append({"kind": "ros_profile_dependent_or_panic", "op": op, "checked": a, "release": b, "release_overflow_checks": c,
+                    "bw_debug_hang": op.startswith("bw ") and a == "hang" and b not in ("hang", "panic"),
+                    "reasons": op_reasons(op)})
+    # (3) model queries (arrival, steps, demand, cost, derive) — well-formed streams
+    qops = []
+    for name in ("arrival", "steps", "demand", "derive"):
+        g = st_mod.STREAMS[name][0]
+        qops += [o for o in g(rng, n // 4) if not o.startswith("bsteps")]
+    rc, rr, rk = real3(qops)
+    dist["model_queries"] = len(qops)
+    for op, a, b, c in zip(qops, rc, rr, rk):
+        if a == b == c:
+            if a not in ("panic", "hang"):
+                nontrivial.add(op)
+            continue
+        cex.append({"kind": "query_profile_dependent", "op": op, "checked": a[:200], "release": b[:200], "release_overflow_checks": c[:200],
+                    "reasons": op_reasons(op)})
+    # (4) fixed probes of the findings that cannot be part of a release-mode stream
+    probe = real(["ccvec cc_ext 0 cc 3 1 2 3"])[0]
+    if probe == "panic":
+        cex.append({"kind": "wcet_extrapolate_zero", "op": "ccvec cc_ext 0 cc 3 1 2 3", "checked": probe})
+    return {"cases": len(ops) + len(rops) + len(qops) + 1, "nontrivial": len(nontrivial),
+            "rule": "the same operations (well-formed task systems for the nine analyses, well-formed ROS 2 workloads, model queries) executed by three builds of the harness: debug assertions + overflow checks, optimised release, release + overflow checks; outcome = value / panic / hang; any difference or any panic/hang is a counterexample; non-trivial = distinct op with a proper value in all three builds",
+            "counterexamples": cex, "samples": samples, "distribution": dist}
